@@ -12,6 +12,11 @@ for d in seeded/$PAT; do
   id=$(basename "$d" | cut -d- -f1)
   out=$(sh tools/seedcheck.sh "/verif/$d/patch.diff" "$id" quick 2>&1 | tail -1)
   n=$((n+1))
+  if [ -f "$d/SUPERSEDED" ]; then
+    # a later repair made this change harmless: the check must now stay quiet on it
+    case "$out" in *"rc=0 "*) ;; *) miss=$((miss+1)); echo "ALARM ON SUPERSEDED $d :: $out";; esac
+    continue
+  fi
   case "$out" in
     *"does not apply"*) skipped=$((skipped+1)); echo "SKIPPED $d (does not apply to this tree)";;
     *"rc=1 "*) ;;
